@@ -4,7 +4,7 @@ tier=${1:-quick}; shift
 cd "$(dirname "$0")/.." || exit 2
 ./setup.sh >/dev/null 2>&1
 for seed in "${@:-1}"; do
-  for i in 01 02 03 04 05 06 07 08 09 10 11 12 13 14 15 16 17 18 19 20; do
+  for i in ${CHECKS:-01 02 03 04 05 06 07 08 09 10 11 12 13 14 15 16 17 18 19 20}; do
     s=$(date +%s)
     VERIF_SEED=$seed ./check C$i --tier $tier > out_C${i}_${seed}.txt 2>&1; rc=$?
     e=$(date +%s)
